@@ -359,7 +359,57 @@ def rule_f(ctx, out):
         raise AnalysisError(f"only {n} guards around structural comparisons found")
 
 
+def rule_g(ctx, out):
+    """A dependence of the original block that is not a dependence of the optimized one must be decided.  In compare_dependences
+    the branch `if all(first_opt_id != d[0] or second_opt_id != d[1] for d in dep_opt)` is that situation; every path through it
+    must assign `verified` (from a comparison, or False) or raise.  A path that leaves it untouched (`continue`, `pass`) keeps
+    verified == True from the initialisation: the missing dependence is accepted."""
+    from ..core.flow import node_binds
+    f = ctx.func(f"{V}.compare_dependences")
+    cfg = ctx.cfg(f)
+    n = 0
+    for st in own_nodes(f.node):
+        if not (isinstance(st, ast.If) and any(call_name(c) == "all" for c in calls_in(st.test)) and "dep_opt" in norm(st.test)):
+            continue
+        loop = getattr(st, "_parent", None)
+        while loop is not None and not isinstance(loop, (ast.For, ast.While)):
+            loop = getattr(loop, "_parent", None)
+        if not isinstance(loop, ast.For):
+            continue
+        t = next((x for x in cfg.nodes if x.kind == "test" and x.owner is st), None) or cfg.stmt_node(st)
+        head = next((x for x in cfg.nodes if x.kind == 'iter' and x.owner is loop), None)
+        if t is None or head is None:
+            raise AnalysisError("compare_dependences: CFG nodes of the unmatched-dependence branch not found")
+        n += 1
+        binders = {x.id for x in cfg.nodes if "verified" in node_binds(x)}
+        if not binders:
+            raise AnalysisError("compare_dependences: no assignment to `verified` found")
+        if cfg.paths_avoiding(t, head, binders, src_labels={"T"}, skip_exc=True):
+            # name the statement that escapes
+            esc = [x for b in st.body for x in ast.walk(b) if isinstance(x, (ast.Continue, ast.Pass, ast.Break))]
+            what = f"`{type(esc[0]).__name__.lower()}` at line {esc[0].lineno}" if esc else "a branch without else"
+            out.bad(f"unmatched-dependence-not-decided:compare_dependences:{type(esc[0]).__name__.lower() if esc else 'fallthrough'}",
+                    f"compare_dependences: when a dependence of the original has no counterpart in the optimized block, {what} reaches the next "
+                    f"candidate without assigning `verified` or raising: the flag keeps its initial True", where(f, esc[0] if esc else st))
+        else:
+            out.ok({"function": "compare_dependences", "branch": short(st.test, 70), "every_path": "assigns verified or raises"})
+    if n < 1:
+        raise AnalysisError("compare_dependences: unmatched-dependence branch not found")
+    # the flag starts True and is what is returned: so "undecided" means "accepted"
+    init = [a for a in f.node.body if isinstance(a, ast.Assign) and is_name_(a.targets[0], "verified")]
+    rets = [r for r in own_nodes(f.node) if isinstance(r, ast.Return) and isinstance(r.value, ast.Name) and r.value.id == "verified"]
+    if init and rets:
+        out.ok({"flag": "verified", "initial": short(init[0].value), "returned": True})
+    else:
+        raise AnalysisError("compare_dependences: verified flag idiom (init at top, returned) not found")
+
+
+def is_name_(e, n):
+    return isinstance(e, ast.Name) and e.id == n
+
+
 RULES = [
+    ("C05.g", "an unmatched dependence is decided, never skipped", 2, rule_g),
     ("C05.f", "no name-equality shortcut around the structural comparison", 8, rule_f),
     ("C05.e", "a (verdict, reason) pair is never used as a truth value", 15, rule_e),
     ("C05.a", "no opcode conflation inherited from the front-end", 40, rule_a),
